@@ -6,6 +6,7 @@ import ClvmModel.Proto.Backref
 import ClvmModel.Proto.TreeHash
 import ClvmModel.Proto.Crypto
 import ClvmModel.Proto.Serde2026
+import ClvmModel.Proto.Py
 open Clvm Clvm.Proto
 
 /-- one request line `<KIND> <id> <args…>` ↦ one reply line `<id> <reply>` -/
@@ -37,6 +38,7 @@ def handleLine (line : String) : String :=
       | "RUN" => handleRunWith {} noExtra args
       | "OP" => handleOpWith {} noExtra args
       | "UNK" => handleUnknown args
+      | "PYGLUE" | "PYSER" | "PYPFX" | "PYDE" | "PYINT" | "PYCURRY" | "PYUNCURRY" => handlePy kind args
       | _ => none
     match r with
     | some s => id ++ " " ++ s
